@@ -43,19 +43,21 @@ def horizons(t: str):
     return list(range(1, 15)) + [23, 24, 25, 26]
 
 
-def mc(inputs, hz, fixed):
+def mc(inputs, hz, fixed, leaps=(False, True)):
     mod = f"""---- MODULE MC_Hybrid ----
 EXTENDS HybridLoads
 c_Inputs == {tla_set(inputs)}
 c_Plain == {tla(PLAIN)}
 c_Horizons == {tla(set(hz))}
 c_Fixed == {tla(set(fixed))}
+c_Leaps == {tla(set(leaps))}
 ====
 """
     consts = """CONSTANTS
  Inputs <- c_Inputs
  Plain <- c_Plain
  Horizons <- c_Horizons
+ Leaps <- c_Leaps
  Fixed <- c_Fixed
 """
     return mod, consts
@@ -93,8 +95,12 @@ from fractions import Fraction
 from .core import import_repo, parallel_map
 
 
-def month_start_h(m):  # hours before month m (1-based, horizon month)
-    return 24 * sum(DAYS[(k - 1) % 12] for k in range(1, m))
+def days_of(moy, leap=False):
+    return 29 if (leap and moy == 2) else DAYS[moy - 1]
+
+
+def month_start_h(m, leap=False):  # hours before month m (1-based, horizon month)
+    return 24 * sum(days_of(((k - 1) % 12) + 1, leap) for k in range(1, m))
 
 
 def eff_dur(pk, d, w, fixed):
@@ -115,11 +121,11 @@ def _numbers(inp, moy):
     return pkc, pkh, cl, hl
 
 
-def _new_hybrid(ghl, M):
+def _new_hybrid(ghl, M, leap=False):
     import numpy as np  # noqa: PLC0415
 
     hl = ghl.HybridLoad.__new__(ghl.HybridLoad)
-    hl.years = [2019]
+    hl.years = [2020] if leap else [2019]
     hl.start_month, hl.end_month = 1, M
     hl.peak_retain_start = hl.peak_retain_end = 12
     hl.load = np.array(0)
@@ -128,7 +134,7 @@ def _new_hybrid(ghl, M):
     return hl
 
 
-def classify_segments(hl, M, peaks):
+def classify_segments(hl, M, peaks, leap=False):
     """Split the code's arrays into months; -> list per month of (kind, end_rel_hu, load), or raises ValueError."""
     hours = [float(x) for x in hl.hour]
     loads = [float(x) for x in hl.load]
@@ -138,8 +144,8 @@ def classify_segments(hl, M, peaks):
     out = []
     pos = 0
     for m in range(1, M + 1):
-        end = month_start_h(m + 1)
-        start = month_start_h(m)
+        end = month_start_h(m + 1, leap)
+        start = month_start_h(m, leap)
         cur = []
         pkc, pkh = peaks[m]
         while pos < len(segs):
@@ -156,6 +162,7 @@ def classify_segments(hl, M, peaks):
 
 
 def direct_verdicts(months, zero_hour, line, M, fixed, totals):
+    leap = bool(line.get("leap"))
     """Property predicates evaluated on the CODE's own arrays (no reference to the expected segments)."""
     v = {"Conserves": True, "PeaksOnlyInRetentionMonths": True, "NoPulseWithoutLoad": True, "PulsePresent": True,
          "DurationsInRange": True, "CentredOnNoon": True, "MonthEndsPresent": True, "StartsAtZero": zero_hour == 0.0,
@@ -166,9 +173,10 @@ def direct_verdicts(months, zero_hour, line, M, fixed, totals):
         moy = ((m - 1) % 12) + 1
         ipf = m < 13 or m > M - 12
         pkc, pkh, cl, hl_ = totals[moy]
-        ln = 24 * DAYS[moy - 1] * HU
+        ln = 24 * days_of(moy, leap) * HU
         if not segs or segs[-1][0] != "avg" or abs(segs[-1][1] - ln) > 2:
             v["MonthEndsPresent"] = False
+            v["Conserves"] = False       # without the month-end breakpoint the month's integral cannot equal the month's load
             if m == M:
                 v["EndsAtHorizon"] = False
             continue
@@ -254,7 +262,8 @@ def _level_a(line):
     import ghedesigner.ground_loads as ghl  # noqa: PLC0415
 
     M = line["M"]
-    hl = _new_hybrid(ghl, M)
+    leap = bool(line.get("leap"))
+    hl = _new_hybrid(ghl, M, leap)
     n = 13
     arr = {k: [0] * n for k in ("monthly_cl", "monthly_hl", "monthly_peak_cl", "monthly_peak_hl", "monthly_peak_cl_duration",
                                "monthly_peak_hl_duration", "monthly_peak_cl_day", "monthly_peak_hl_day")}
@@ -273,7 +282,7 @@ def _level_a(line):
     for m in range(1, M + 1):
         moy = ((m - 1) % 12) + 1
         ipf = m < 13 or m > M - 12
-        d = 24 * DAYS[moy - 1] * HU
+        d = 24 * days_of(moy, leap) * HU
         if ipf:
             d -= int(round(arr["monthly_peak_cl_duration"][moy] * HU)) + int(round(arr["monthly_peak_hl_duration"][moy] * HU))
         if d != line["mdur"][m - 1]:
@@ -289,7 +298,7 @@ def _level_a(line):
 def _finish(line, hl, M, totals, fixed):
     peaks = {m: totals[((m - 1) % 12) + 1][:2] for m in range(1, M + 1)}
     try:
-        months, zero_hour = classify_segments(hl, M, peaks)
+        months, zero_hour = classify_segments(hl, M, peaks, bool(line.get("leap")))
     except ValueError as e:
         return {"mismatch": [f"time axis malformed: {e}"], "verdict": {"MonthEndsPresent": False, "EndsAtHorizon": False, "Conserves": False}}
     mm = compare_months(line, months, fixed)
@@ -306,12 +315,14 @@ def _finish(line, hl, M, totals, fixed):
 
 
 def synth_profile(line):
-    """8760 hourly loads (W, extraction positive) realising the abstract monthly inputs."""
-    prof = [0.0] * 8760
+    """8760 (8784 in a leap year) hourly loads (W, extraction positive) realising the abstract monthly inputs."""
+    leap = bool(line.get("leap"))
+    nh = 8784 if leap else 8760
+    prof = [0.0] * nh
     totals = {}
     for moy in range(1, 13):
         inp = inp_of(line, moy)
-        s = month_start_h(moy)
+        s = month_start_h(moy, leap)
         pkc, pkh, _, _ = _numbers(inp, moy)
         if inp["pkc"]:
             prof[s + inp["dayC"] * 24 + 12] = -pkc * 1000.0
@@ -326,13 +337,13 @@ def synth_profile(line):
     # windows of zero-peak months that must see load: last day of the previous month
     for moy in range(1, 13):
         inp = inp_of(line, moy)
-        prev_end = month_start_h(moy) if moy > 1 else 8760
+        prev_end = month_start_h(moy, leap) if moy > 1 else nh
         if not inp["pkc"] and inp["wc"]:
             prof[prev_end - 24 + 4] = -(7.0 + moy / 16.0) * 1000.0
         if not inp["pkh"] and inp["wh"]:
             prof[prev_end - 24 + 5] = (6.0 + moy / 16.0) * 1000.0
     for moy in range(1, 13):
-        s, e = month_start_h(moy), month_start_h(moy + 1)
+        s, e = month_start_h(moy, leap), month_start_h(moy + 1, leap)
         rej = [-x / 1000.0 for x in prof[s:e] if x < 0]
         ext = [x / 1000.0 for x in prof[s:e] if x >= 0]
         totals[moy] = (max(rej) if rej else 0.0, max(ext) if ext else 0.0, sum(rej), sum(ext))
@@ -377,7 +388,7 @@ def _level_b(line):
         sp = SimpleNamespace(start_month=1, end_month=M)
         with warnings.catch_warnings():
             warnings.simplefilter("ignore")
-            hl = ghl.HybridLoad(prof, None, None, sp, years=[2019])
+            hl = ghl.HybridLoad(prof, None, None, sp, years=[2020] if line.get("leap") else [2019])
     finally:
         ghl.HybridLoad.perform_current_month_simulation = real
     # peak days / peaks / totals the real constructor derived must be the abstract inputs
